@@ -960,3 +960,141 @@ def c_from_residual_opt(eng, st, fr, f, args, site):
             if eng.T.variant_name(o.ty, vi) == "None":
                 return [(st, Enum(o.ty, ((vi, ()),), "residual"))]
     return None
+
+
+@contract(r"^(std|core)::bool::<impl bool>::(then|then_some)$")
+def c_bool_then(eng, st, fr, f, args, site):
+    """`flag.then(|| v)` / `flag.then_some(v)`: Some(v) when the flag holds, None otherwise (decided like a branch)."""
+    rt = ret_ty(eng, site)
+    b = force(eng, st, args[0])
+    if rt is None or not isinstance(b, Bool):
+        return None
+    c = eng.simplify_cond(st, b.cond)
+    outs = []
+    for truth in (True, False):
+        if c[0] == "const" and c[1] != truth:
+            continue
+        ns = st.fork()
+        try:
+            ki = eng.assume(ns, c, truth) if c[0] != "const" else None
+        except Dead:
+            continue
+        if ki is not None and ki not in ns.key and (eng._want_partition(fr, site.get("block"), "cond", ki) or (ki[0] == "variant" and eng._cond_key_adt(st, c))):
+            ns.key = ns.key + (ki,)
+        if not truth:
+            outs.append((ns, Enum(rt, ((0, ()),), "opt")))
+        elif f["path"].endswith("then_some"):
+            outs.append((ns, Enum(rt, ((1, (args[1],)),), "opt")))
+        else:
+            rs = call_closure(eng, ns, fr, args[1], [], site)
+            if rs is None:
+                pt = variant_payload_ty(eng, rt, 1)
+                rs = [(ns, Top(pt, "then#%d" % eng._hv()))]
+            for ns2, v in rs:
+                outs.append((ns2, Enum(rt, ((1, (v,)),), "opt")))
+    return outs
+
+
+@contract(r"^(std|core)::option::Option::<(std|core)::result::Result<T, E>>::transpose$")
+def c_opt_transpose(eng, st, fr, f, args, site):
+    """Option<Result<T, E>> -> Result<Option<T>, E>."""
+    e, _ = as_enum(eng, st, args[0])
+    rt = ret_ty(eng, site)
+    if e is None or rt is None:
+        return None
+    ot = variant_payload_ty(eng, rt, 0)
+    outs = []
+    for ns, vi, fs in split_variants(eng, st, e, None):
+        if vi == 0:
+            outs.append((ns, Enum(rt, ((0, (Enum(ot, ((0, ()),), "opt"),)),), "res")))
+            continue
+        r, _ = as_enum(eng, ns, fs[0])
+        if r is None:
+            return None
+        for ns2, rvi, rfs in split_variants(eng, ns, r, None):
+            if rvi == 0:
+                outs.append((ns2, Enum(rt, ((0, (Enum(ot, ((1, (rfs[0],)),), "opt"),)),), "res")))
+            else:
+                outs.append((ns2, Enum(rt, ((1, (rfs[0],)),), "res")))
+    return outs
+
+
+@contract(r"^(std|core)::result::Result::<(std|core)::option::Option<T>, E>::transpose$")
+def c_res_transpose(eng, st, fr, f, args, site):
+    """Result<Option<T>, E> -> Option<Result<T, E>>."""
+    e, _ = as_enum(eng, st, args[0])
+    rt = ret_ty(eng, site)
+    if e is None or rt is None:
+        return None
+    it = variant_payload_ty(eng, rt, 1)
+    outs = []
+    for ns, vi, fs in split_variants(eng, st, e, None):
+        if vi == 1:
+            outs.append((ns, Enum(rt, ((1, (Enum(it, ((1, (fs[0],)),), "res"),)),), "opt")))
+            continue
+        o, _ = as_enum(eng, ns, fs[0])
+        if o is None:
+            return None
+        for ns2, ovi, ofs in split_variants(eng, ns, o, None):
+            if ovi == 0:
+                outs.append((ns2, Enum(rt, ((0, ()),), "opt")))
+            else:
+                outs.append((ns2, Enum(rt, ((1, (Enum(it, ((0, (ofs[0],)),), "res"),)),), "opt")))
+    return outs
+
+
+@contract(r"^(std|core)::result::Result::<T, E>::and_then$")
+def c_res_and_then(eng, st, fr, f, args, site):
+    e, _ = as_enum(eng, st, args[0])
+    rt = ret_ty(eng, site)
+    if e is None or rt is None:
+        return None
+    outs = []
+    for ns, vi, fs in split_variants(eng, st, e, None):
+        if vi == 1:
+            outs.append((ns, Enum(rt, ((1, fs),), "res")))
+            continue
+        rs = call_closure(eng, ns, fr, args[1], [fs[0]], site)
+        if rs is None:
+            outs.append((ns, Top(rt, "andthen#%d" % eng._hv())))
+            continue
+        outs.extend(rs)
+    return outs
+
+
+@contract(r"^(std|core)::option::Option::<(std|core)::option::Option<T>>::flatten$")
+def c_opt_flatten(eng, st, fr, f, args, site):
+    e, _ = as_enum(eng, st, args[0])
+    rt = ret_ty(eng, site)
+    if e is None or rt is None:
+        return None
+    outs = []
+    for ns, vi, fs in split_variants(eng, st, e, None):
+        if vi == 0:
+            outs.append((ns, Enum(rt, ((0, ()),), "opt")))
+        else:
+            outs.append((ns, fs[0]))
+    return outs
+
+
+@contract(r"^(std|core)::num::<impl u(8|16|32|64)>::(rotate_left|rotate_right)$")
+def c_rotate(eng, st, fr, f, args, site):
+    """Bit rotation by a constant amount: a permutation of the bit provenance."""
+    v = force(eng, st, args[0])
+    n = force(eng, st, args[1]) if len(args) > 1 else None
+    if not isinstance(v, Int) or not isinstance(n, Int) or not n.lin.is_const():
+        return None
+    bits = eng.bits_of(st, v)
+    if bits is None and v.lin.is_const():
+        c = v.lin.c & ((1 << v.w) - 1)
+        bits = tuple((c >> i) & 1 for i in range(v.w))
+    if bits is None and v.lin.single_sym() and not v.signed:
+        bits = tuple(eng.bit_atom(st, v.lin.single_sym(), i) for i in range(v.w))
+    if bits is None or len(bits) < v.w:
+        return None
+    w = v.w
+    k = n.lin.c % w
+    if f["path"].endswith("rotate_right"):
+        k = (w - k) % w
+    nb = tuple(bits[(i - k) % w] for i in range(w))
+    return [(st, eng.int_from_bits(st, nb, w, False))]
